@@ -27,7 +27,8 @@ RULE = ('family = one generated pipeline containing at least one random stage '
         'variants repeat one order; ordered is False exactly with a reshuffling stage; '
         'vars() of every stage and of its copy agree. Non-trivial = an adversary step '
         'fired between two variant steps; distinct = distinct (pipeline, op list).')
-PROBES = ['copy_of_every_dataset_subclass_with_non_default_parameters',
+PROBES = ['iterator_created_before_another_epoch',
+          'copy_of_every_dataset_subclass_with_non_default_parameters',
           'frozen_copy_of_live_dataset', 'one_generator_shared_by_stages',
           'adversary_step_inside_an_epoch', 'prefetch_pool_variant_ran',
           'prefetch_single_variant_ran', 'random_stage_below_other_stages']
@@ -187,7 +188,75 @@ def run_params(case):
                         stats={}, sample={'case': case}, digest_extra=None)
 
 
+def run_created_early(case):
+    """An iterator is created, a complete epoch is run with another iterator,
+    then the first one is consumed: the random draws must happen when an
+    iteration starts to deliver (first next), for the plain pipeline and for
+    the pipeline behind prefetch alike."""
+    import warnings
+    desc = case['desc']
+    st = np.random.get_state()
+    np.random.seed(case['gseed'])
+    W.set_ctx(W.Ctx())
+    outs = {}
+    violations = []
+    try:
+        with warnings.catch_warnings():
+            warnings.simplefilter('ignore')
+            for name in case['variants']:
+                base = W.build(desc)
+                if name == 'A':
+                    ds = base
+                elif name == 'P1':
+                    ds = base.prefetch(1, case['pf']['b1'])
+                else:
+                    ds = base.prefetch(case['pf']['w'], case['pf']['bw'])
+                sim = S.Sim({'policy': 'random', 'seed': case['sched_seed']},
+                            trace_files=[ldp.__file__])
+                res = None
+                with S.simulation(sim):
+                    try:
+                        x = iter(ds)
+                        y_out = [W.norm(v) for v in ds]
+                        x_out = [W.norm(v) for v in x]
+                        x = None
+                        sim.drain()
+                        res = [y_out, x_out]
+                    except S.SimAbort:
+                        pass
+                if sim.failure or res is None:
+                    violations.append(hist.viol('variant_failed', 'variant_failed:%s:hang' % name,
+                                                'variant %s: %s' % (name, sim.failure)))
+                    break
+                outs[name] = res
+    finally:
+        np.random.set_state(st)
+        W.set_ctx(None)
+    if not violations:
+        for name in case['variants']:
+            if outs[name] != outs['A']:
+                violations.append(hist.viol(
+                    'order_not_reproduced', 'order_not_reproduced:%s:created_early' % name,
+                    'an iterator created before, but consumed after, a complete epoch: variant '
+                    '%s yields %s, the plain pipeline %s'
+                    % (name, [[list(W.src_ids(v)) for v in o] for o in outs[name]],
+                       [[list(W.src_ids(v)) for v in o] for o in outs['A']])))
+                break
+    return hist.outcome(case, nontrivial=True, key=hist.hkey(case), violations=violations,
+                        fired={'mode_created_early': 1},
+                        probes={'iterator_created_before_another_epoch': 1}, stats={},
+                        sample={'case': case}, digest_extra=outs)
+
+
 def gen(rng, tier, index):
+    if index % 10 == 8:
+        desc, a = gen_desc(rng)
+        variants = ['A', 'P1'] + (['Pw'] if a.sized and a.findexable else [])
+        pf = {'b1': rng.randrange(1, 4), 'w': rng.randrange(2, 4)}
+        pf['bw'] = pf['w'] + rng.randrange(0, 3)
+        return [{'mode': 'created_early', 'desc': desc, 'variants': variants, 'pf': pf,
+                 'sched_seed': rng.randrange(1 << 30), 'gseed': rng.randrange(1 << 16)}
+                for _ in range(2)]
     if index % 10 == 9:
         # copy() of every Dataset subclass with non-default parameters
         return [{'mode': 'params', 'kind': k, 'pseed': rng.randrange(1 << 30)}
@@ -329,6 +398,8 @@ def compare_copy(ds):
 def run(case):
     if case.get('mode') == 'params':
         return run_params(case)
+    if case.get('mode') == 'created_early':
+        return run_created_early(case)
     desc = case['desc']
     E = case['epochs']
     st = np.random.get_state()
@@ -490,7 +561,7 @@ def run(case):
 
 
 def shrink(case):
-    if case.get('mode') == 'params':
+    if case.get('mode') in ('params', 'created_early'):
         return
 
     def fix(c):
